@@ -73,7 +73,12 @@ def gen_library(rng):
         nv = rng.randint(3, 5)
         verts = [[rng.randint(-4, 4) for _ in range(3)] for _ in range(nv)]
         normals = None
-        if gi % 3 != 2:
+        share = False
+        if gi % 3 == 1:
+            # ONE source feeds both POSITION and NORMAL (each point is its own normal)
+            normals = [list(v) for v in verts]
+            share = True
+        elif gi % 3 != 2:
             nn = rng.randint(1, 4)
             normals = [[rng.randint(-2, 2) for _ in range(3)] for _ in range(nn)]
         prims = []
@@ -91,7 +96,7 @@ def gen_library(rng):
             for c in counts:
                 rows.append([[rng.randrange(nv)] + ([rng.randrange(len(normals))] if use_normals else []) for _ in range(c)])
             prims.append({'kind': kind, 'symbol': sym, 'normals': use_normals, 'polys': rows})
-        geoms.append({'id': 'geom%d' % (gi + 1), 'verts': verts, 'normals': normals, 'prims': prims})
+        geoms.append({'id': 'geom%d' % (gi + 1), 'verts': verts, 'normals': normals, 'share': share, 'prims': prims})
     lights = [{'id': 'lightP', 'kind': 'point'}, {'id': 'lightD', 'kind': 'directional'},
               {'id': 'lightS', 'kind': 'spot'}, {'id': 'lightA', 'kind': 'ambient'}]
     cams = [{'id': 'camP', 'kind': 'perspective'}, {'id': 'camO', 'kind': 'orthographic'}]
@@ -245,6 +250,8 @@ def gen_case(rng, lib, forward_refs=False):
     case = {'libnodes': libnodes, 'liborder': order, 'roots': roots, 'ignore': bool(lib.get('allow_broken'))}
     # follow-ups evaluated by the direct oracle: a root's subtree entered with a given matrix, and a second
     # traversal after one node's transform list was extended and saved
+    case['build'] = 'construct' if (rng.random() < 0.4 and not case['ignore']) else 'load'
+    case['form'] = rng.randrange(1000)
     if rng.random() < 0.5:
         case['enter'] = [rng.randrange(nroots), gen_transform(rng)]
     if rng.random() < 0.5:
@@ -457,7 +464,7 @@ def render_geometry(g):
               el('float_array', [('id', gid + '-pos-array'), ('count', 3 * nv)], nums(v for p in g['verts'] for v in p)) +
               el('technique_common', [], el('accessor', [('source', '#%s-pos-array' % gid), ('count', nv), ('stride', 3)],
                                             ''.join(el('param', [('name', c), ('type', 'float')]) for c in 'XYZ'))))
-    if g['normals'] is not None:
+    if g['normals'] is not None and not g.get('share'):
         nn = len(g['normals'])
         body += el('source', [('id', gid + '-nrm')],
                    el('float_array', [('id', gid + '-nrm-array'), ('count', 3 * nn)], nums(v for p in g['normals'] for v in p)) +
@@ -467,7 +474,7 @@ def render_geometry(g):
     for p in g['prims']:
         inputs = el('input', [('semantic', 'VERTEX'), ('source', '#%s-vtx' % gid), ('offset', 0)])
         if p['normals']:
-            inputs += el('input', [('semantic', 'NORMAL'), ('source', '#%s-nrm' % gid), ('offset', 1)])
+            inputs += el('input', [('semantic', 'NORMAL'), ('source', '#%s-%s' % (gid, 'pos' if g.get('share') else 'nrm')), ('offset', 1)])
         k = p['kind']
         flat = lambda rows: nums(v for r in rows for v in r)
         if k in ('triangles', 'lines'):
